@@ -140,6 +140,15 @@ class Ctx:
         self.evaluations += 1
         if nontrivial:
             self.distinct.add(hashlib.blake2b(repr(canon).encode(), digest_size=8).digest())
+        self._time_cap()
+
+    def _time_cap(self):
+        """once a failing input that no open known finding explains has been found, the verdict is fixed; code broken badly enough
+        (hangs that cost one alarm period per input) must not turn the rest of the run into a time-out = a useless check"""
+        if getattr(self, "_fresh", 0) >= 1 and time.time() - self.t0 > TIME_CAP.get(self.tier, 1200):
+            self.notes.append(f"exploration stopped after {round(time.time() - self.t0)} s with {len(self.violations)} violations "
+                              f"({self._fresh} not covered by an open known finding)")
+            raise EnoughViolations()
 
     def disagree(self, family, inp, model, impl):
         self.disagreements.append({"family": family, "input": inp, "model": model, "impl": impl})
@@ -157,6 +166,7 @@ class Ctx:
         v = self.violations[-1]
         if not any(sig_matches(k["signature"], v["signature"]) for k in self._open_known):
             self._fresh += 1
+            self._time_cap()
             if self._fresh >= VIOLATION_CAP:
                 self.notes.append(f"exploration stopped after {len(self.violations)} violations ({self._fresh} not covered by an open known finding)")
                 raise EnoughViolations()
@@ -165,11 +175,12 @@ class Ctx:
         self.obligation_log.append((name, bool(ok), detail))
 
 
-class EnoughViolations(Exception):
+class EnoughViolations(BaseException):
     pass
 
 
 VIOLATION_CAP = 256
+TIME_CAP = {"quick": 240, "thorough": 1800}        # seconds; only applies after an unexplained failing input was found
 
 
 def load_known(pid):
